@@ -735,6 +735,9 @@ class InterpolatedPredictionStrategy(DefaultPredictionStrategy):
         return res
 
     def exact_predictive_covar(self, test_test_covar, test_train_covar):
+        if settings.skip_posterior_variances.on():
+            return ZeroLinearOperator(*test_test_covar.size())
+
         if settings.fast_pred_var.off() and settings.fast_pred_samples.off():
             return super(InterpolatedPredictionStrategy, self).exact_predictive_covar(test_test_covar, test_train_covar)
 
